@@ -185,6 +185,8 @@ TABLE.update({
     "c20_description_name_dropped.diff": ("box", "contracts.c20:describe:describe_arg_sets", None),
     "c13_resolve_name_entry_before_explicit.diff": ("box", "contracts.c13:resolve_name:resolve_name_arg_sets", None),
     "c01_inline_materialised_constant.diff": ("box", "contracts.c13:inline_value_c:inline_value_arg_sets", None),
+    "c08_relay_reused_across_networks.diff": ("box", "contracts.c08:route_signal_box:route_signal_arg_sets", None),
+    "c08_relay_step_too_long.diff": ("box", "contracts.c08:route_signal_box:route_signal_arg_sets", None),
     "c04_self_feedback_on_green.diff": ("box", "contracts.c04:self_feedback:self_feedback_arg_sets", None),
     "c04_cleanup_keeps_wires_of_removed_gate.diff": ("box", "contracts.c04:cleanup_gates:cleanup_arg_sets", None),
     "../seeded/C04-1/patch.diff": ("box", "contracts.c04:optimize_feedback:feedback_arg_sets", None),
